@@ -706,7 +706,16 @@ class ExprMixin(object):
 
     def do_slice(self, c, sl, st, node):
         if sl.step is not None:
-            raise OutsideSubset("slice step")
+            # only the full reversal l[::-1] of a list: same length, element k is element len-1-k (a function of the list)
+            stp = sl.step
+            is_m1 = isinstance(stp, ast.UnaryOp) and isinstance(stp.op, ast.USub) and isinstance(stp.operand, ast.Constant) and stp.operand.value == 1
+            if not (is_m1 and sl.lower is None and sl.upper is None and isinstance(c.ty, List)):
+                raise OutsideSubset("slice step")
+            r = core.ufun("reversed_list", [c], c.ty)
+            n = core.llen(c)
+            CTX.axioms.append(core.llen(r) == n)
+            CTX.axioms.append(core.forall_int(0, n, lambda j: z3.Select(core.larr(r), j) == z3.Select(core.larr(c), n - 1 - j)))
+            return [(st, r)]
         if isinstance(c.ty, Opt):
             if self.in_spec:
                 return self.do_slice(core.oval(c), sl, st, node)
